@@ -64,18 +64,18 @@ CHECKS = {
         design="DESIGN.md section 5/C05",
     ),
     "C01": dict(
-        text="Theorems for bundles of any length and every separator: text iteration recovers exactly the written lines plus one terminator line per table, and splitting recovers exactly the joined cells; per-table layout round trip (see Properties/C01.v for what is proved and what is still partial). The model-level composition read_csv(write_csv ts) is evaluated with vm_compute on every generated bundle, the writer model is compared byte for byte with write_csv, and the oracle checks the real round trip (count, order, name, destinations, flag, columns, units, values, inputs unmodified) for explicit/default separators and path/stream.",
+        text="Theorems for bundles of any length and every separator: text iteration recovers exactly the written lines plus one terminator line per table, and splitting recovers exactly the joined cells; one written value read back under its unit; one table of either orientation read back; and the whole statement in the reader model: read(cells(lines(write_csv sep ts))) delivers exactly one TABLE event per written table, in order, equal to it (tables with at least one row and column; zero-row tables by correspondence and oracle only). The same composition read_csv(write_csv ts) is evaluated with vm_compute on every generated bundle, the writer model is compared byte for byte with write_csv, and the oracle checks the real round trip (count, order, name, destinations, flag, columns, units, values, inputs unmodified) for explicit/default separators and path/stream.",
         note="Coq kernel + vm_compute; models WriteCsv.v + reader models; H_float_roundtrip, H_dt_roundtrip, H_native sampled per case; no display formats.",
         design="DESIGN.md section 5/C01",
     ),
     "C08": dict(
-        text="Theorems: table_to_json_data and the readers' JsonData carry name, destinations, columns in table order with their own units, and every leaf is one of the five JSON leaf kinds and never NaN; null exactly for missing values. Correspondence of table_to_json (on the python scalars list(df[col]) yields) and of json_data_to_table (grid of native cells through the table parser) with the implementation; the oracle checks exact leaf types, strict json.dumps, and the full round trip through text.",
+        text="Theorems: json_data_to_table(table_to_json_data t) rebuilds t's name, destinations, columns, units and values for every table (zero rows included) whose scalars are admissible for their units (missing timestamps excepted, as the statement says); table_to_json_data and the readers' JsonData carry name, destinations, columns in table order with their own units, and every leaf is one of the five JSON leaf kinds and never NaN; null exactly for missing values. Correspondence of table_to_json (on the python scalars list(df[col]) yields) and of json_data_to_table (grid of native cells through the table parser) with the implementation; the oracle checks exact leaf types, strict json.dumps, and the full round trip through text.",
         note="Coq kernel + vm_compute; models Json.v, ParseTable.v; H_json_codec, H_float_roundtrip, H_dt_roundtrip; the layout half of the round-trip theorem is shared with C01/C10 (see Properties).",
         design="DESIGN.md section 5/C08",
     ),
     "C09": dict(
-        text="Theorems: for every list of table dimensions, orientation and number of separator lines the styler addresses exactly the rows and cells the writer wrote; rows written per table. The worksheet model (appended rows, sep_lines empty rows, None padding) is compared cell by cell with the grid openpyxl loads back, the reader model is run on that grid, and the oracle checks the real write_excel/read_excel round trip per sheet incl. origin sheet names, styles, sep_lines, path/BytesIO and sheet-name patterns.",
-        note="Coq kernel + vm_compute; models WriteXl.v + reader models; H_openpyxl_store; xlsxwriter backend not installed and not covered; the table-level round-trip statement rests on the shared layout lemmas (see Properties).",
+        text="Theorems: every table of a sheet (any tables around it, any sep_lines >= 1, any sheet width, zero rows included) is one TABLE block of the sheet as read back, at the row where it was appended, and that block parses back to the table, native cells needing no float()/to_datetime hypothesis; for every list of table dimensions, orientation and number of separator lines the styler addresses exactly the rows and cells the writer wrote; rows written per table. The worksheet model (appended rows, sep_lines empty rows, None padding) is compared cell by cell with the grid openpyxl loads back, the reader model is run on that grid, and the oracle checks the real write_excel/read_excel round trip per sheet incl. origin sheet names, styles, sep_lines, path/BytesIO and sheet-name patterns.",
+        note="Coq kernel + vm_compute; models WriteXl.v + reader models; H_openpyxl_store; xlsxwriter backend not installed and not covered; openpyxl storing and loading cell values is H_openpyxl_store, tied by comparing the worksheet model with the loaded grid.",
         design="DESIGN.md section 5/C09",
     ),
     "C10": dict(
